@@ -216,6 +216,13 @@ def veq(a, b):
         return za == zb
     if ka == 'opaque' and kb == 'opaque':
         return a.z == b.z
+    if {ka, kb} == {'opaque', 'str'}:
+        o, st = (a, b) if ka == 'opaque' else (b, a)
+        from . import linemodel
+        w = linemodel.CURRENT_WORLD
+        if o.tag == 'field' and w is not None:
+            return w.is_text(o.z, st.s)          # an abstract field compared with a literal: an uninterpreted predicate per literal
+
     if ka == 'tuple' and kb == 'tuple':
         if len(a.items) != len(b.items):
             return False
